@@ -101,7 +101,24 @@ func runC18(p *eng.Prog, r *eng.Report, tier string) {
 				c.dom("C18.3", hp, cl, "user presence callback", []string{known, "!eq(recv.HandleUserPresence,nil)"})
 			}
 		}
-		_ = g
+		// presences for rooms never joined are ignored: nothing is read from
+		// the payload and no error can come back for them
+		nr := 0
+		for _, rs := range g.Returns {
+			if g.RetKindOf(rs) == eng.RetSuccess {
+				continue
+			}
+			nr++
+			c.dom("C18.3", hp, rs, "error return only for joined rooms", []string{known})
+		}
+		for _, cl := range hp.AllCalls() {
+			cid := hp.CalleeID(cl)
+			if strings.HasPrefix(cid, "encoding/xml.Decoder.") || strings.HasSuffix(cid, ".Token") {
+				nr++
+				c.dom("C18.3", hp, cl, "payload read only for joined rooms ("+cid+")", []string{known})
+			}
+		}
+		c.r.Floor("C18.3", "error returns and payload reads of HandlePresence", nr, 2)
 	}
 	// Client.JoinPresence replaces the entry unconditionally
 	cj := c.fn("C18.3", "muc", "(*Client).JoinPresence")
@@ -214,4 +231,6 @@ func runC18(p *eng.Prog, r *eng.Report, tier string) {
 			c.r.Check("C18.5", lf, "registration "+w, "K: the client handler is registered for the muc#user x payload", lf.Pos(), reg[w], "missing registration; have "+strings.Join(sortedKeys(reg), " "))
 		}
 	}
+	// C18.6 a refused or cancelled join does not block the next one
+	handoffWithdrawn(c, "C18.6", "muc", "(*Channel).JoinPresence", "muc.Channel.join")
 }
